@@ -53,7 +53,10 @@ func c05Check(cs *core.Case, p rtcp.Packet, where string) {
 	cs.Sample(where+"/"+k.String(), func() any {
 		return map[string]any{"value": vdump(p), "marshal_hex": mon.Hex(b, 64), "len": len(b), "marshal_size": sizeAfter}
 	})
-	kf5 := gen.Contains(p, gen.IsKF5)
+	// known finding KF5 shows as an output that is not a whole number of words (and everything that
+	// follows from it); a packet with unaligned blocks whose sizes happen to add up to whole words
+	// is framed correctly by the unchanged library and gets no tolerance
+	kf5 := gen.Contains(p, gen.IsKF5) && len(b)%4 != 0
 	w := func(extra core.W) func() core.W {
 		return func() core.W {
 			d := core.W{"type": k.String(), "value": vdump(p), "marshal_hex": mon.Hex(b, 128), "len": len(b), "marshal_size_before": sizeBefore, "marshal_size_after": sizeAfter}
